@@ -36,7 +36,7 @@ def derefAll {α : Type} (site : String) : List (Option α) → Res (List α)
 
 /-- what is handed on to the application layer -/
 inductive Call where
-  | admit (t : Transaction) (broadcaster : String)        -- TransactionsPool.addTransaction past its nil guard
+  | toPool (t : Transaction) (broadcaster : String)        -- TransactionsPool.addTransaction past its nil guard
   | blocks (height : Nat)                                  -- Blockchain.Blocks(height)
   | addTargets (targets : Option (List String))            -- SendersManager.AddTargets
   | utxos (address : String)                               -- UtxosManager.Utxos(address)
@@ -73,7 +73,7 @@ def poolAddTransaction (t : Option Transaction) (broadcaster : String) : Res (Li
   | none => .ok []                                   -- "the transaction is missing": logged, nothing changes
   | some t => do
     useTransaction t
-    .ok [Call.admit t broadcaster]
+    .ok [Call.toPool t broadcaster]
 
 /-- `TransactionsController.HandleTransactionRequest` (+ the goroutine it starts) -/
 def handleTransactionRequest (p : Params) (j : Json) : Res (List Call) := do
